@@ -26,6 +26,7 @@ BOUNDS = {
     "shapes": "call targets built from Name | Attribute(target, a) | Call(helper, target) | Constant | BinOp(target + 'a') to depth 2 (quick) / 3 (thorough), "
     "each placed in 17 contexts up to depth 1 (quick) / 2 (thorough): bare call, comparison, and/or, list, helper argument, any(...) body, attribute of the result, "
     "called through / attribute-called through a generator variable under 5 names; the deepest targets in the 3 most permissive contexts",
+    "hostile arguments": "every allowed callee (helpers, str/repr/any/all/fields, every whitelisted field-type constructor) x 7 callables reached through attributes x 8 argument placements",
     "purity": "every whitelisted helper / builtin applied to every field kind of a record with list, dict, path, digest, bytes, command and nested-record fields",
 }
 STUBS = ["record holds instrumented canaries in pass-through ('record'-typed) fields: a str subclass that logs method calls and a callable that logs invocation"]
@@ -166,6 +167,14 @@ def shapes(depth, full_depth=None):
             for v in GEN_VARS:
                 cands.append(f"any({v}() for {v} in [{ts}])")
                 cands.append(f"any({v}.ipaddress() for {v} in [{ts}])")
+            # a generator consumed by something other than any()/all(): membership test, comparison, helper argument, if clause
+            cands.append(f"'x' in (f() for f in [{ts}])")
+            cands.append(f"1 in (1 for f in [{ts}] if f())")
+            cands.append(f"(1 in (f for f in [{ts}])) or f()")
+            cands.append(f"1 not in (net.ipaddress() for net in [{ts}])")
+            cands.append(f"[f() for f in [{ts}]] == []")
+            cands.append(f"any(1 for f in [{ts}] if f())")
+            cands.append(f"all(string() for string in [{ts}] if string)")
         else:
             cands = [call, f"any(f() for f in [{ts}])", f"any(net.ipaddress() for net in [{ts}])"]
         for c in cands:
@@ -214,6 +223,57 @@ def sandbox(depth: int, full: int, lo: int, hi: int):
                 continue
             return False
         return True
+
+    return check
+
+
+def hostile_arguments():
+    """Expressions whose only calls are ALLOWED ones, but whose arguments are callables reached through attributes: nothing may be
+    invoked through them and the record must stay unchanged, whatever the call returns or raises."""
+    from flow.record.whitelist import WHITELIST
+
+    callees = sorted(allowed_names()) + sorted(WHITELIST)
+    xs = ["r.f", "r.f.call", "r.c.call", "r.c", "r.tags.append", "r.tags.clear", "r.f.string"]
+    out = []
+    for h in callees:
+        for x in xs:
+            out += [f"{h}({x})", f"{h}(r, {x})", f"{h}(r, ['s'], {x})", f"{h}({x}, {x})", f"{h}([{x}])"]
+        out += [f"{h}(typename=r.f.call)", f"{h}(r, ['s'], ['a'], nocase=r.f)", f"any({h}(q) for q in [r.f, r.tags.append])"]
+    out += ["fields(r.f) == fields(r.c.call)", "r.s in fields(r.tags.append)", "any(x for x in fields(r.f.call))", "field_regex(r, r.f, r.f.call)", "field_equals(r, Type.string, r.f)",
+            "field_contains(r, fields(r.tags.append), ['a'])", "has_field(r, r.f)", "str(fields)(r.f) == 1", "Type.string == r.f", "r.f in Type.string", "Type.record == r.f", "r.f == r.f.call",
+            "r.f < r.f.call or True", "r.f + r.f.call == 1 or True", "[r.f, r.f.call] == (r.tags.append,)", "r.f in [r.f.call]", "not r.f", "r.f and r.f.call", "r.f.call or r.tags.clear"]
+    return out
+
+
+def hostargs(lo: int, hi: int):
+    """path-exhaustive: a symbolic index selects the expression; the selector object is shared by all paths (a reader's selector
+    serves many records)"""
+    from crosshair.tracers import NoTracing
+    from flow.record.selector import Selector
+
+    batch = hostile_arguments()[lo:hi]
+    sels = [Selector(s) for s in batch]
+    n = len(batch)
+
+    def check(i: int) -> bool:
+        """
+        post: _
+        """
+        if not (0 <= i < n):
+            return True
+        sel = None
+        for j in range(n):
+            if i == j:
+                sel = sels[j]
+        with NoTracing():
+            rec = make_record()
+            before = repr(rec._packdict())
+            del LOG[:]
+            try:
+                sel.match(rec)
+            except Exception:  # noqa: BLE001 - refusal or a type error inside an allowed helper: both fine
+                pass
+            return not LOG and repr(rec._packdict()) == before
 
     return check
 
@@ -287,10 +347,13 @@ def classification_sanity():
 def obligations(tier, seed):
     depth, full = (2, 1) if tier == "quick" else (3, 2)
     nbad = len(bad_shapes(depth, full))
-    size = 250 if tier == "quick" else 1500
+    size = 200 if tier == "quick" else 1500
     obs = [ob("side/classification", "side", "classification_sanity", {})]
     for lo in range(0, nbad, size):
-        obs.append(ob(f"sandbox/d{depth}/{lo}", "xh", "sandbox", {"depth": depth, "full": full, "lo": lo, "hi": min(lo + size, nbad)}, timeout=90 if tier == "quick" else 600, group="sandbox", bounds=f"n: all ints, s: all strings <= 2 chars; shapes {lo}..{min(lo + size, nbad)} of {nbad} hostile shapes at depth {depth}"))
+        obs.append(ob(f"sandbox/d{depth}/{lo}", "xh", "sandbox", {"depth": depth, "full": full, "lo": lo, "hi": min(lo + size, nbad)}, timeout=150 if tier == "quick" else 600, group="sandbox", bounds=f"n: all ints, s: all strings <= 2 chars; shapes {lo}..{min(lo + size, nbad)} of {nbad} hostile shapes at depth {depth}"))
+    nh = len(hostile_arguments())
+    for lo in range(0, nh, 60):
+        obs.append(ob(f"hostargs/{lo}", "xh", "hostargs", {"lo": lo, "hi": min(lo + 60, nh)}, timeout=90 if tier == "quick" else 300, group="hostargs", bounds=f"allowed calls {lo}..{min(lo + 60, nh)} of {nh} with callables reached through attributes as arguments (index symbolic, path-exhaustive)"))
     np_ = len(purity_programs())
     for lo in range(0, np_, 12):
         obs.append(ob(f"purity/{lo}", "xh", "purity", {"lo": lo, "hi": min(lo + 12, np_)}, timeout=60, group="purity", bounds=f"programs {lo}..{min(lo + 12, np_)} of {np_}"))
@@ -327,6 +390,19 @@ def replay(res):
                     "input": {"expr": src},
                 }
         return {"reproduced": False, "what": "all shapes of the batch are refused"}
+    if "hostargs" in gid:
+        for src in hostile_arguments()[a["lo"] : a["hi"]]:
+            rec = make_record()
+            before = repr(rec._packdict())
+            del LOG[:]
+            try:
+                Selector(src).match(rec)
+            except Exception:  # noqa: BLE001
+                pass
+            fired = list(LOG)
+            if fired or repr(rec._packdict()) != before:
+                return {"reproduced": True, "key": f"C09/hostargs/{src}", "what": f"Selector({src!r}): " + (f"invoked {fired}" if fired else f"modified the record: {before} -> {rec._packdict()!r}"), "input": {"expr": src}}
+        return {"reproduced": False, "what": "nothing invoked, record unchanged"}
     if "purity" in gid:
         progs = purity_programs()[a["lo"] : a["hi"]]
         idxs = [i] if isinstance(i, int) and 0 <= i < len(progs) else range(len(progs))
